@@ -34,6 +34,39 @@ def _sync(title, oracle, ref):
 
 
 CHECKS.update({
+    "C12": dict(
+        category="exploration",
+        technique="runtime monitoring: ownership ledger for records and stacks fed by hooks at every acquisition/release (CAS-updated, page-granular overlap map, releasing-frame check, size-word check), ASan poison / fill pattern on released stacks, whole-stack canaries, release-legality callback; delay injection in the finish/join/detach windows",
+        text=("Every record/stack acquisition and release in the process goes through the ledger: acquire-while-in-use, double release, overlap of live stacks (any size, size-class rounding), "
+              "release by code still running on that stack, writes between release and reuse are immediate violations. The workload mixes all reaping kinds, stack sizes from 4 to 2048 pages "
+              "incl. non-page-multiples, canaries up to 2 MiB re-verified after every resumption, thousands of simultaneously live threads joined late with exit values checked, on 1-16 workers and three builds."),
+        design_ref="DESIGN.md section 5 C12",
+    ),
+    "C13": dict(
+        category="exploration",
+        technique="runtime monitoring: ledger at quiescence + release callback (exactly one release per reaped thread, only after finish and a reaping request), generation-checked FINISHED hook for the tryjoin rule, real-clock check for timedjoin, fresh-allocation bound over create/reap cycles on one worker",
+        text=("All six reaping kinds (join, tryjoin, timedjoin with past and far deadlines, detach before/after finish, detach-state attribute) in random windows; each reaped thread's record must be "
+              "released exactly once and only after its function returned and a reaping operation was requested; the ledger must be empty at quiescence; tryjoin returns 0 only after the function returned "
+              "and never EBUSY once the finished state was published before the call; timedjoin never gives up before its deadline; tens of thousands (thorough: 3e5) create/reap cycles per kind on one "
+              "worker allocate at most 8 fresh records/stacks."),
+        design_ref="DESIGN.md section 5 C13",
+    ),
+    "C15": dict(
+        category="exploration",
+        technique="runtime monitoring: one process per configuration/history with counters of workers, OS threads (/proc/self/task) and tids; generated malformed environments with exit-status/effective-value oracle; reference-parser differential on the CPU-list parser under ASan/UBSan",
+        text=("Histories of init/work/fini cycles with worker counts 1..64 requested three ways, first-use races of up to 9 OS threads (exactly one initialisation), OS-thread counts before/after init and after fini, "
+              "worker indices within range, finalisation from a migrated main thread; ~260 (thorough 3000) generated environments with malformed values for every configuration variable must start, run a fork-join, "
+              "finalise and report the documented fallback values; the CPU-list parser is compared with an independent reference parser on 8e4 (thorough 8e6) grammar-generated and mutated strings."),
+        design_ref="DESIGN.md section 5 C15",
+    ),
+    "C20": dict(
+        category="exploration",
+        technique="runtime monitoring: real-clock inequalities around every sleep / timed call + a virtual clock owned by the harness (hr_gettime hook) checking the time-out rule reading by reading on one worker",
+        text=("Real clock: sleeps return 0 no earlier than requested, malformed durations give EINVAL, a sibling progresses during a sleep (one worker), time-outs imply the clock passed the deadline, no time-out when the holder "
+              "released before the call. Virtual clock: thousands of deterministic cases (carries, nsec 0/999999999, deadline exactly equal / already past / k steps away +-1 ns, durations up to 2^40 s) check that a time-out is returned "
+              "at the first reading strictly after the deadline, never before, and not at all when the mutex was released / the target finished before an attempt that preceded the deadline."),
+        design_ref="DESIGN.md section 5 C20",
+    ),
     "C10": dict(
         category="exploration",
         technique="runtime monitoring: reference-model monitors (dictionary for the per-thread store, set model + liveness marks for the key allocator, free-list walk at quiescence) on the real code, targeted delays in the allocator's CAS windows, ASan/UBSan, library-level migration probes",
